@@ -107,7 +107,21 @@ class C07(SeqProp):
                             exp[basis][q] = exp[basis][q] - drift
                     elif op.get("correct"):
                         resync |= {(basis, q) for q in tgs}
-            if k in ("enable_eom", "modify_eom", "disable_eom") and op.get("correct") and name in cur:
+            if k == "disable_eom" and op.get("correct") and name in cur and seq._schedule[name].eom_blocks:
+                # leaving EOM mode with drift correction: the atoms the channel targets NOW are shifted by
+                # the phase accumulated at the off-detuning from the end of the last real pulse of the block
+                # (or the block's start) to the block's end
+                cs = seq._schedule[name]
+                blk = cs.eom_blocks[-1]
+                if blk.tf is not None:
+                    last_tf = 0
+                    for sl in cs.slots:
+                        if isinstance(sl.type, Pulse) and not cs.is_detuned_delay(sl.type) and sl.tf <= blk.tf:
+                            last_tf = max(last_tf, sl.tf)
+                    shift = float(blk.detuning_off) * (int(blk.tf) - max(int(blk.ti), last_tf)) * 1e-3
+                    for q in cur[name][-1].targets:
+                        exp[cs.channel_obj.basis][q] = exp[cs.channel_obj.basis][q] + shift
+            elif k in ("enable_eom", "modify_eom", "disable_eom") and op.get("correct") and name in cur:
                 ch = seq._schedule[name].channel_obj
                 resync |= {(ch.basis, q) for q in cur[name][-1].targets}
         if not ok:
@@ -141,7 +155,7 @@ class C07(SeqProp):
             from pulser_simulation import QutipEmulator
         except Exception as e:  # noqa: BLE001
             return [Violation("ramsey:cannot-run-emulator", repr(e), dict(scenario="ramsey"))]
-        n = 6 if tier == "quick" else 40
+        n = 8 if tier == "quick" else 40
         for k in range(n):
             phi = rng.choice([0.0, 0.5, 1.0, math.pi / 2, 2.0, math.pi, 4.0, -1.0, 7.5]) if k else math.pi / 3
             how = rng.choice(["phase_shift", "post"])
@@ -150,14 +164,22 @@ class C07(SeqProp):
                 reg = Register({"q0": (0.0, 0.0)})
                 seq = Sequence(reg, MockDevice)
                 seq.declare_channel("r", "raman_local", initial_target="q0")
+                # half of the runs: the first pulse comes from a GLOBAL channel of the same basis and the
+                # programmed phase alpha is not zero (both pulses carry it: it must drop out)
+                mixed = k % 2 == 1
+                alpha = rng.choice([0.7, 2.0, -1.1]) if mixed else 0.0
+                first = "r"
+                if mixed:
+                    seq.declare_channel("g", "raman_global")
+                    first = "g"
                 T = 252
                 amp = (math.pi / 2) / (T * 1e-3)
                 if how == "post":
-                    seq.add(Pulse.ConstantPulse(T, amp, 0.0, 0.0, post_phase_shift=phi), "r")
+                    seq.add(Pulse.ConstantPulse(T, amp, 0.0, alpha, post_phase_shift=phi), first)
                 else:
-                    seq.add(Pulse.ConstantPulse(T, amp, 0.0, 0.0), "r")
+                    seq.add(Pulse.ConstantPulse(T, amp, 0.0, alpha), first)
                     seq.phase_shift(phi, "q0", basis="digital")
-                seq.add(Pulse.ConstantPulse(T, amp, 0.0, 0.0), "r")
+                seq.add(Pulse.ConstantPulse(T, amp, 0.0, alpha), "r")
                 sim = QutipEmulator.from_sequence(seq, sampling_rate=1.0)
                 res = sim.run()
                 st = res.get_final_state()
@@ -168,7 +190,7 @@ class C07(SeqProp):
                 p_exc = float(1.0 - probs[int(np.argmax(init))])
             want = math.cos(phi / 2) ** 2
             if abs(p_exc - want) > 2e-3:
-                v.append(Violation("ramsey:population-not-cos2", f"phi={phi} via {how}: excitation {p_exc}, expected {want}", dict(scenario="ramsey", phi=phi, how=how)))
+                v.append(Violation("ramsey:population-not-cos2", f"phi={phi} via {how}{' (global then local channel, programmed phase %s)' % alpha if mixed else ''}: excitation {p_exc}, expected {want}", dict(scenario="ramsey", phi=phi, how=how, mixed=mixed, alpha=alpha)))
         v.extend(self.sampled_phase_checks(tier, rng))
         return v
 
